@@ -106,7 +106,7 @@ func H_C05_Msgs_M()   { m := mkMsgs("", 0); pbC05(m, expMsgs(pbBuf(), m)) }
 func H_C05_Msgs_Rm()  { m := mkMsgs("", 1); pbC05(m, expMsgs(pbBuf(), m)) }
 func H_C05_Msgs_All() { m := mkMsgs("", 2); pbC05(m, expMsgs(pbBuf(), m)) }
 func H_C09_Msgs() {
-	m := mkMsgs("a_", 2)
+	m := &Msgs{M: mkLeaf("a_", false)} // first contents: anything that leaves a non-zero size behind
 	_ = m.Size()
 	m2 := mkMsgs("b_", 2)
 	m.M, m.Rm, m.Tail = m2.M, m2.Rm, m2.Tail
@@ -163,9 +163,10 @@ func expNode(b []byte, n *Node) []byte {
 func H_C04_Node() { pbC04(mkNode("", 2)) }
 func H_C05_Node() { n := mkNode("", 2); pbC05(n, expNode(pbBuf(), n)) }
 func H_C09_Node() {
-	n := mkNode("a_", 2)
+	n := mkNode("a_", 0)
+	n.Next = &Node{V: 3}
 	_ = n.Size()
-	n2 := mkNode("b_", 1)
+	n2 := mkNode("b_", 2)
 	n.V, n.Next, n.Kids = n2.V, n2.Next, n2.Kids
 	pbC09(n, expNode(pbBuf(), n2))
 }
@@ -233,7 +234,7 @@ func expOne(b []byte, m *One) []byte {
 func H_C04_One() { m, _ := mkOne(""); pbC04(m) }
 func H_C05_One() { m, _ := mkOne(""); pbC05(m, expOne(pbBuf(), m)) }
 func H_C09_One() {
-	m, _ := mkOne("a_")
+	m := &One{C: &One_S{S: string(pbBytes1("a_s"))}}
 	_ = m.Size()
 	m2, _ := mkOne("b_")
 	m.C = m2.C
@@ -376,7 +377,7 @@ func expMix(b []byte, m *Mix) []byte {
 func H_C04_Mix() { pbC04(mkMix("")) }
 func H_C05_Mix() { m := mkMix(""); pbC05(m, expMix(pbBuf(), m)) }
 func H_C09_Mix() {
-	m := mkMix("a_")
+	m := &Mix{A: 5, B: string(pbBytes1("a_b")), E: nondetBool("a_e")}
 	_ = m.Size()
 	m2 := mkMix("b_")
 	m.A, m.B, m.C, m.D, m.E, m.G = m2.A, m2.B, m2.C, m2.D, m2.E, m2.G
